@@ -32,10 +32,10 @@ theorem optString_optStrJson (o : Option Bytes) : optString (optStrJson o) = som
 theorem optVersion_optVersionJson (o : Option Version) : optVersion (optVersionJson o) = some o := by
   cases o with
   | none => rfl
-  | some v => cases v <;> simp [optVersionJson, optVersion, unitEnum, versionName, versionOfName, n2012, n2008]
+  | some v => cases v <;> simp [optVersionJson, optVersion, nameEnum, versionName, versionOfName, n2012, n2008]
 
-theorem effect_effectName (e : Effect) : unitEnum effectOfName (.str (effectName e)) = some e := by
-  cases e <;> simp [unitEnum, effectName, effectOfName, nAllow, nDeny]
+theorem effect_effectName (e : Effect) : nameEnum effectOfName (.str (effectName e)) = some e := by
+  cases e <;> simp [nameEnum, effectName, effectOfName, nAllow, nDeny]
 
 /-! ## maps -/
 
@@ -151,7 +151,7 @@ theorem stmtField_notPrincipal (acc : StAcc) (v : Json) :
 
 theorem stmtField_effect (acc : StAcc) (v : Json) :
     stmtField acc (kEffect, v) =
-      if acc.effect.isSome then none else (unitEnum effectOfName v).map fun x => { acc with effect := some x } := by
+      if acc.effect.isSome then none else (nameEnum effectOfName v).map fun x => { acc with effect := some x } := by
   simp [stmtField, kSid, kPrincipal, kNotPrincipal, kEffect]
 
 theorem stmtField_action (acc : StAcc) (v : Json) :
